@@ -1203,7 +1203,66 @@ func jumpCacheB(variant int) []byte {
 	return a.bytes()
 }
 
+// code of exactly n bytes that takes a real jump (so the lazy JUMPDEST analysis runs), stops, and ends in a
+// PUSHk opcode with only t of its k data bytes present: PUSH1 3, JUMP, JUMPDEST, JUMPDEST*, STOP, PUSHk, data[t]
+func pushTailProg(n, k, t int) []byte {
+	if t > k {
+		t = k
+	}
+	f := n - 6 - t
+	if f < 0 {
+		return nil
+	}
+	a := &asm{}
+	a.op(0x60, 0x03, 0x56, 0x5b)
+	for i := 0; i < f; i++ {
+		a.op(0x5b)
+	}
+	a.op(0x00)
+	a.op(byte(0x5f + k))
+	for i := 0; i < t; i++ {
+		a.op(0x5b) // data bytes that look like JUMPDESTs
+	}
+	return a.bytes()
+}
+
+// code length x trailing truncated PUSHk: every residue mod 8 around 8, 16, 24, 32, 40, 64, 72 and 256
+func pushTailFamily(all bool, seed uint64, visit func(name string, s spec)) {
+	ctxs := []string{"top", "create-top", "callcode", "delegatecall", "staticcall-1", "create-op"}
+	cnt := 0
+	for _, base := range []int{8, 16, 24, 32, 40, 64, 72, 256} {
+		for d := -1; d <= 6; d++ {
+			n := base + d
+			for k := 1; k <= 32; k++ {
+				for _, t := range []int{0, 1, k - 1, k} {
+					if t < 0 || (t == 1 && k == 1) || (t == k-1 && (k <= 2)) {
+						continue
+					}
+					tiny := pushTailProg(n, k, t)
+					if tiny == nil {
+						continue
+					}
+					cnt++
+					if all {
+						for _, ctx := range ctxs {
+							visit("push-tail", aritySpec(ctx, arityCfg((cnt+int(seed))%8), tiny))
+						}
+					} else {
+						// quick: the full product of lengths and pushes, one context each (rotating); PUSH32/PUSH31 and the empty tail in two
+						ctx := ctxs[(cnt+int(seed))%len(ctxs)]
+						visit("push-tail", aritySpec(ctx, arityCfg((cnt+int(seed))%8), tiny))
+						if k >= 31 && t == 0 {
+							visit("push-tail", aritySpec(ctxs[(cnt+1+int(seed))%len(ctxs)], arityCfg((cnt+3)%8), tiny))
+						}
+					}
+				}
+			}
+		}
+	}
+}
+
 func jumpFamilies(all bool, seed uint64, visit func(name string, s spec)) {
+	pushTailFamily(all, seed, visit)
 	zero := big.NewInt(0)
 	cfgs := []int{arityCfg(int(seed % 8))}
 	if all {
